@@ -32,6 +32,7 @@ fn main() {
         match args.get(2).map(|s| s.as_str()) {
             Some("vm") => props::c11::child_main(&args[3..]),
             Some("stf") => props::c09::child_main(&args[3..]),
+            Some("c03") => props::c03::child_main(&args[3..]),
             _ => std::process::exit(2),
         }
         return;
